@@ -240,6 +240,10 @@ def build(desc):
     s = T.Object(classes()[desc['cls']], **kw)
   elif k == 'union':
     s = T.Union([build(c) for c in desc['cands']], **kw)
+  elif k == 'callable':
+    # a candidate WITHOUT value type (none of the modelled values is callable): inside a Union it opens
+    # the weak-candidate loop and the converter fallback of `Union._apply`
+    s = T.Callable(**kw)
   else:
     raise ValueError(k)
   if n == 2:
@@ -287,6 +291,8 @@ def readback(spec):
     return ['obj', classes().index(spec.cls), F]
   if isinstance(spec, T.Union):
     return ['union', [readback(c) for c in spec.candidates], F]
+  if type(spec) is T.Callable and not (spec.args or spec.kw or spec.return_value):
+    return ['callable', F]
   return ['?', type(spec).__name__]
 
 
@@ -409,6 +415,14 @@ class SpecGen:
           break
       if len(cands) < 2:
         cands = [{'k': 'int', 'lo': None, 'hi': None}, {'k': 'str', 'rx': None}]
+      if r.chance(0.3):
+        # a candidate without value type next to (preferably) a constrained Float reachable only
+        # through the int -> float converter
+        if r.chance(0.6) and not any(c['k'] in ('float', 'int', 'bool') for c in cands):
+          lo, hi = self.bounds(-4, 12)
+          fc = {'k': 'float', 'lo': None if lo is None else fl(lo, 1)[1:], 'hi': None if hi is None else fl(hi, 1)[1:], 'n': 0}
+          cands.insert(r.below(len(cands) + 1), fc)
+        cands.insert(r.below(len(cands) + 1), {'k': 'callable', 'n': r.choice([0, 0, 1])})
       d['cands'] = cands
     self.flags(d)
     return d
@@ -447,6 +461,8 @@ class SpecGen:
     d['n'] = r.weighted([(12, 0), (3, 1), (2, 2)])
     if d['k'] in ('enum', 'any') and d['n'] == 1:
       d['n'] = 2
+    if d['k'] == 'callable':
+      return
     if r.chance(0.35) and not (d['k'] == 'dict' and d.get('fields') is not None):
       d['d'] = self.valid(d)
       if d['d'] == ['M']:
@@ -465,6 +481,8 @@ class SpecGen:
       return ['N']
     if k == 'any':
       return copy.deepcopy(r.choice(ATOMS[:14]))
+    if k == 'callable':
+      return ['N'] if d.get('n') else copy.deepcopy(r.choice(WRONG))     # (no modelled value is callable)
     if k == 'bool':
       return ['b', r.chance(0.5)]
     if k == 'int':
@@ -520,7 +538,8 @@ class SpecGen:
         items = r.shuffle(items)
       return ['d', items]
     if k == 'union':
-      return self.valid(r.choice(d['cands']), depth + 1)
+      real = [c for c in d['cands'] if c['k'] != 'callable'] or d['cands']
+      return self.valid(r.choice(real), depth + 1)
     raise ValueError(k)
 
   def boundary(self, d):
@@ -555,6 +574,8 @@ class SpecGen:
       out += [['o'] + o for o in OBJ_POOL]
     elif k == 'any':
       out += copy.deepcopy(r.sample(ATOMS, 3))
+    elif k == 'callable':
+      out += [['i', 1], ['s', 'a'], ['N']]
     elif k in ('list', 'tuple') and 'elems' not in d:
       tag = 'l' if k == 'list' else 't'
       mn, mx = d.get('mn') or 0, d.get('mx')
@@ -596,6 +617,15 @@ class SpecGen:
     elif k == 'union':
       for c in d['cands']:
         out += self.boundary(c)[:5]
+      if any(c['k'] == 'callable' for c in d['cands']):
+        # ints for the Float candidates (the converter fallback), inside and outside their ranges
+        for c in d['cands']:
+          if c['k'] == 'float':
+            for b in (c.get('lo'), c.get('hi')):
+              if b is not None:
+                q = b[0] // (2 ** b[1])
+                out += [['i', q - 1], ['i', q], ['i', q + 1], ['i', q + 4]]
+            out += [['i', 5], ['i', -3], ['b', True]]
     out.append(self.valid(d))
     return out
 
@@ -781,7 +811,7 @@ class SpecGen:
         m = self.mutate(d['cands'][i])
         if m['k'] == d['cands'][i]['k'] and (m['k'] != 'obj' or m['cls'] == d['cands'][i]['cls']):
           d['cands'][i] = m
-    elif k == 'any' or k == 'bool':
+    elif k == 'any' or k == 'bool' or k == 'callable':
       d['n'] = 0 if d.get('n') else 2
 
   def fix_default(self, d):
@@ -846,6 +876,90 @@ def tuple_pair(g):
   cands = [n for n in ((mn or 0) - 1, (mn or 0), mx, (mx + 1) if mx is not None else None, r.randint(1, 3)) if n is not None and n >= 1]
   n = r.choice(cands)
   child = {'k': 'tuple', 'elems': [g.mutate(elem) if r.chance(0.3) else copy.deepcopy(elem) for _ in range(n)], 'n': 0}
+  return child, base
+
+
+def free_dict_pair(g):
+  """(a, b): a Dict whose schema is ONE dynamic (StrKey) field with a narrow value spec (or a key regex)
+  against the schema-less Dict(), in either order, bare or as the same field / element / Union
+  candidate of a wrapper; plus dict values with conforming and non-conforming entries."""
+  r = g.r
+  for _ in range(20):
+    vs = g.spec(0)
+    if vs['k'] not in ('any', 'callable'):
+      break
+  vs['n'] = 0
+  vs.pop('d', None)
+  vs.pop('fz', None)
+  rx = r.choice([None, None, 0, 1])
+  one = {'k': 'dict', 'fields': [[['k', rx], vs]], 'n': 0}
+  free = {'k': 'dict', 'fields': None, 'n': 0}
+  names = {None: ['p', 'q'], 0: ['ab', 'abc'], 1: ['b', 'xb']}[rx]
+  vals = [['d', []], ['d', [[names[0], g.valid(vs)]]], ['d', [[names[0], g.near_miss(vs)]]],
+          ['d', [[names[1], g.valid(vs)], [names[0], g.near_miss(vs)]]], ['d', [['zz', g.valid(vs)]]],
+          ['d', [[names[0], ['s', 'str']]]], ['d', [[names[0], ['i', 11]]]]]
+  w = r.below(5)
+  def wrap(x):
+    if w == 0:
+      return {'k': 'dict', 'fields': [[['c', 'x'], x]], 'n': 0}
+    if w == 1:
+      return {'k': 'list', 'elem': x, 'mn': None, 'mx': None, 'n': 0}
+    if w == 2:
+      return {'k': 'union', 'cands': [x, {'k': 'str', 'rx': None, 'n': 0}], 'n': 0}
+    return x
+  if w == 0:
+    vals = [['d', [['x', v]]] for v in vals]
+  elif w == 1:
+    vals = [['l', [v]] for v in vals] + [['l', []]]
+  a, b = wrap(one), wrap(free)
+  return a, b, vals
+
+
+def enum_over_base_pair(g):
+  """(child, base): an Enum child over a CONSTRAINED non-Enum base (Int / Float range, Str regex) with
+  candidates of the right type inside and outside the constraint; bare or as the same Dict field /
+  List element."""
+  r = g.r
+  c = r.below(3)
+  if c == 0:
+    lo, hi = g.bounds(-1, 4)
+    if lo is None and hi is None:
+      lo = 0
+    base = {'k': 'int', 'lo': lo, 'hi': hi, 'n': 0}
+    ins = [['i', x] for x in range(-3, 8) if (lo is None or x >= lo) and (hi is None or x <= hi)]
+    outs = [['i', x] for x in range(-3, 8) if not ((lo is None or x >= lo) and (hi is None or x <= hi))]
+  elif c == 1:
+    lo, hi = g.bounds(-2, 6)
+    if lo is None and hi is None:
+      hi = 3
+    base = {'k': 'float', 'lo': None if lo is None else fl(lo, 1)[1:], 'hi': None if hi is None else fl(hi, 1)[1:], 'n': 0}
+    pool = [fl(x, 1) for x in range(-6, 14)] + [['i', x] for x in range(-3, 7)]
+    def inside(v):
+      x = v[1] / float(2 ** v[2]) if v[0] == 'f' else float(v[1])
+      return (lo is None or x >= lo / 2.0) and (hi is None or x <= hi / 2.0)
+    ins = [v for v in pool if inside(v)]
+    outs = [v for v in pool if not inside(v)]
+  else:
+    rx = r.below(len(REGEX_POOL))
+    base = {'k': 'str', 'rx': rx, 'n': 0}
+    import re
+    pat = re.compile(REGEX_POOL[rx])
+    ins = [['s', x] for x in STR_POOL if pat.match(x)]
+    outs = [['s', x] for x in STR_POOL if not pat.match(x)]
+  vals = copy.deepcopy(r.sample(ins, min(len(ins), r.randint(1, 2))))
+  if outs and r.chance(0.7):
+    vals += copy.deepcopy(r.sample(outs, min(len(outs), r.randint(1, 2))))
+  vals = r.shuffle(vals) if len(vals) > 1 else vals
+  child = {'k': 'enum', 'vals': vals, 'pool': 0, 'n': 0}
+  if r.chance(0.4):
+    child['d'] = copy.deepcopy(vals[0])
+  w = r.below(4)
+  if w == 0:
+    child = {'k': 'dict', 'fields': [[['c', 'x'], child]], 'n': 0}
+    base = {'k': 'dict', 'fields': [[['c', 'x'], base]], 'n': 0}
+  elif w == 1:
+    child = {'k': 'list', 'elem': child, 'mn': None, 'mx': None, 'n': 0}
+    base = {'k': 'list', 'elem': base, 'mn': None, 'mx': None, 'n': 0}
   return child, base
 
 
